@@ -78,3 +78,16 @@ func hashBytes(h uint64, b []byte) uint64 {
 	}
 	return h
 }
+
+// Perm is a random permutation of 0..n-1.
+func (r *Rand) Perm(n int) []int {
+	p := make([]int, n)
+	for i := range p {
+		p[i] = i
+	}
+	for i := n - 1; i > 0; i-- {
+		j := r.Intn(i + 1)
+		p[i], p[j] = p[j], p[i]
+	}
+	return p
+}
